@@ -137,10 +137,33 @@ def check_symmetry(case):
     return Outcome(_nontrivial(case, a, b), _key(case), _labels(case))
 
 
+_SCALE_ITERS = 8
+
+
+def _scaled_run_differs(d_a, info_a, d_b, info_b, factor):
+    """Compare a run with its rescaled twin (expected: every iterate's distance times `factor`).  The
+    rescaled linear systems are not bitwise rescalings (only the flux block scales), so the two runs differ
+    at rounding level per step, and an iteration that does not settle amplifies that from step to step
+    (thorough tier: 1e-16 -> 2e-6 over 79 Newton iterations).  Asserted therefore: the recorded distances of
+    the first _SCALE_ITERS iterations, the final distance if the run is no longer than that, and that the
+    twin does not collapse to zero.  Returns a message or None."""
+    if d_b == 0 and d_a != 0:
+        return f"rescaled run returns 0.0, expected {factor * d_a!r}"
+    ha = list((info_a or {}).get("convergence_history", {}).get("distance", []))
+    hb = list((info_b or {}).get("convergence_history", {}).get("distance", []))
+    for k in range(min(len(ha), len(hb), _SCALE_ITERS)):
+        if np.isfinite(ha[k]) and not abs(hb[k] - factor * ha[k]) <= 1e-7 * factor * abs(ha[k]):
+            return f"iteration {k}: distance {hb[k]!r}, expected {factor} x {ha[k]!r} = {factor * ha[k]!r}"
+    if max(len(ha), len(hb)) <= _SCALE_ITERS and not abs(d_b - factor * d_a) <= 1e-7 * factor * abs(d_a):
+        return f"returned distance {d_b!r}, expected {factor * d_a!r}"
+    return None
+
+
 def check_scaling(case):
     """d(lam a, lam b) = lam d(a, b).  The mobility cut-off ("regularization", an absolute flux norm,
     default machine eps) and the Bregman penalty L ("an approximate flux norm") are problem data in the
-    units of the flux and are scaled along; then Newton and Bregman are scale-equivariant step by step,
+    units of the flux and are scaled along, and so is Newton's tolerance on the distance increment, which
+    is an absolute number; then Newton and Bregman are scale-equivariant step by step,
     so the law holds for every iteration count.  A constant cell weight c multiplies the distance by c
     (every method; the cut-off, which acts on the weighted flux norm, is scaled by c).  Nothing is
     asserted when a face flux is rounding noise next to the others (weight contrast > 1e10): whether
@@ -166,19 +189,24 @@ def check_scaling(case):
     found = None
     zero = False  # a vanishing distance for different distributions is never rounding noise
     if o["method"] == "newton":
-        d2, _, _ = _solve(grid, o, lam * a, lam * b, tags, extra={"regularization": eps * lam})
+        ex = {"regularization": eps * lam}
+        if o.get("tol") is not None:
+            ex["tol_distance"] = o["tol"] * lam  # Newton stops on the *absolute* distance increment
+        d2, i2, _ = _solve(grid, o, lam * a, lam * b, tags, extra=ex)
         zero = d2 == 0
-        if not abs(d2 - lam * d1) <= 1e-7 * lam * d1:
-            found = Violation("scaling:newton", f"d({lam}a,{lam}b) = {d2!r}, {lam} d(a,b) = {lam * d1!r}", tags)
+        why = _scaled_run_differs(d1, i1, d2, i2, lam)
+        if why:
+            found = Violation("scaling:newton", f"d({lam}a,{lam}b) vs {lam} d(a,b): {why}", tags)
         labels.append("scale-newton-exact")
     else:
         o2 = dict(o, L=L0 * lam)
-        d2, _, _ = _solve(grid, dict(o, L=L0), a, b, tags)
-        d3, _, _ = _solve(grid, o2, lam * a, lam * b, tags, extra={"regularization": eps * lam})
+        d2, i2, _ = _solve(grid, dict(o, L=L0), a, b, tags)
+        d3, i3, _ = _solve(grid, o2, lam * a, lam * b, tags, extra={"regularization": eps * lam})
         zero = d3 == 0 and d2 != 0
-        if not abs(d3 - lam * d2) <= 1e-7 * lam * abs(d2):
-            found = Violation("scaling:bregman-equivariant", f"d({lam}a,{lam}b | L={lam}L0) = {d3!r}, "
-                              f"{lam} d(a,b | L0) = {lam * d2!r}", tags)
+        why = _scaled_run_differs(d2, i2, d3, i3, lam)
+        if why:
+            found = Violation("scaling:bregman-equivariant", f"d({lam}a,{lam}b | L={lam}L0) vs {lam} d(a,b | L0): "
+                              f"{why}", tags)
         labels.append("scale-bregman-equivariant")
         # at fixed L nothing is asserted: L "represents an approximate flux norm" (docstring); for
         # data much smaller than L the shrinkage removes the whole auxiliary flux, the iteration
@@ -186,10 +214,14 @@ def check_scaling(case):
     c = case.get("cweight")
     if c is not None and found is None:
         wimg = wass.make_weight(grid, {"kind": "const", "value": c})
-        d5, _, _ = _solve(grid, o, a, b, tags, weight=wimg, extra={"regularization": eps * c})
+        ex = {"regularization": eps * c}
+        if o["method"] == "newton" and o.get("tol") is not None:
+            ex["tol_distance"] = o["tol"] * c
+        d5, i5, _ = _solve(grid, o, a, b, tags, weight=wimg, extra=ex)
         zero = d5 == 0
-        if not abs(d5 - c * d1) <= 1e-7 * c * d1:
-            found = Violation("scaling:weight", f"constant weight {c}: d = {d5!r}, expected {c * d1!r}", tags)
+        why = _scaled_run_differs(d1, i1, d5, i5, c)
+        if why:
+            found = Violation("scaling:weight", f"constant weight {c}: {why}", tags)
         labels.append("const-weight")
     if found is not None:
         if tags.get("mobility_contrast", 1.0) > 1e10 and not zero:
